@@ -77,9 +77,9 @@ class _OneManager:
 
     def Manager(self):  # noqa: N802
         import multiprocessing
-        if _OneManager._m is None or _OneManager._pid != os.getpid():
+        # a forked child keeps using the manager of its parent (new proxies connect by address)
+        if _OneManager._m is None:
             _OneManager._m = multiprocessing.Manager()
-            _OneManager._pid = os.getpid()
         return _OneManager._m
 
     def __getattr__(self, k):
@@ -91,6 +91,7 @@ def _install_one_manager():
     import pipefunc.map._storage_array._dict as d
     if not isinstance(d.multiprocessing, _OneManager):
         d.multiprocessing = _OneManager()
+    d.multiprocessing.Manager()  # start it now: before any fork of crash children
 
 
 def storage_arg(st):
